@@ -121,7 +121,7 @@ func genDispatch(r *Rng, i int, tier string) string {
 
 type dispSpec struct {
 	st, code, red, hops, kind, ct, srv, url int
-	resp, body, mime, parsed               bool
+	resp, body, mime, parsed                bool
 	chain                                   string
 }
 
